@@ -124,7 +124,9 @@ fn projection8(w: &World) -> Value {
         .collect();
     json!({"tick": tick, "gt": w.rt.global_tick().as_u64(), "prov": prov, "pend": pend, "comm": comm, "events": events,
            "corr": corr, "wpend": w.rt.pending_witnessed_submission_count(), "staged": w.rt.ticketed_runtime_ingress_count(),
-           "witnessed": w.rt.witnessed_submission_count(), "pol": pol})
+           "witnessed": w.rt.witnessed_submission_count(), "pol": pol,
+           "nfaults": w.rt.scheduler_fault_count(),
+           "rtFault": w.rt.scheduler_runtime_fault().and_then(|r| w.faults_by_generation().iter().position(|f| f.fault_id == r.fault_id)).map(|p| p + 1).unwrap_or(0)})
 }
 
 fn norm8(v: &Value) -> Value {
@@ -175,6 +177,7 @@ fn apply(w: &mut World, op: &Value) -> Result<(Value, Vec<(String, String)>), St
             }
             (json!({"ok": true, "err": ""}), vec![])
         }
+        "resolve" => (w.resolve(op["f"].as_u64().unwrap_or(0) as usize)?, vec![]),
         "restart" => {
             w.restart()?;
             (json!({"ok": true, "err": ""}), vec![])
@@ -200,6 +203,13 @@ fn apply(w: &mut World, op: &Value) -> Result<(Value, Vec<(String, String)>), St
                 // whatever left the inbox must now be committed at that head, exactly once more than before
                 for n in &adm {
                     let tag = format!("{h}/{n}");
+                    // at most once per head, decided on the harness' own history of surviving commits (the
+                    // runtime's ledger is what is under test, e.g. across a rolled-back later pass)
+                    let c = w.commit_counts.entry(tag.clone()).or_insert(0);
+                    *c += 1;
+                    if *c > 1 {
+                        viol.push(("intent_committed_twice_on_head".into(), format!("{tag} committed {c} times by surviving passes")));
+                    }
                     if !comm1.contains(&tag) || comm0.contains(&tag) {
                         viol.push(("admitted_not_committed_once".into(), format!("{tag}: left the inbox but committed-before={} committed-after={}", comm0.contains(&tag), comm1.contains(&tag))));
                     }
@@ -307,7 +317,7 @@ pub fn run(args: &[String]) -> i32 {
             }
             if matches!(last["a"].as_str(), Some("ingest" | "submit" | "stage")) && (got_r["disp"] == "Accepted" || got_r["disp"] == "Staged") {
                 let tag = format!("{}/{}", got_r["head"].as_str().unwrap_or(""), last["i"].as_str().unwrap_or(""));
-                if w.committed_set().contains(&tag) {
+                if w.committed_set().contains(&tag) || w.commit_counts.get(&tag).copied().unwrap_or(0) > 0 {
                     violations.push(json!({"kind": "committed_intent_accepted_again", "detail": format!("{tag} is in the committed ledger of its head and was answered {}", got_r["disp"])}));
                 }
             }
